@@ -38,11 +38,11 @@ KEYS = tuple(FLOORS["quick"].keys()) + ("demux_reconfigurations",)
 
 
 def plan(tier):
-    return {"shards": 4, "timeout": 900} if tier == "quick" else {"shards": 16, "timeout": 3000}
+    return {"shards": 4, "timeout": 900} if tier == "quick" else {"shards": 16, "timeout": 3400}
 
 
 def ncases(tier):
-    return 2500 if tier == "quick" else 8000
+    return 2500 if tier == "quick" else 25000
 
 
 class Dev:
